@@ -8,7 +8,7 @@ def run_case(c):
     err = None
     try:
         rbql.query_table(c['q'], [list(r) for r in c['A']], out, warns, None if c.get('B') is None else [list(r) for r in c['B']],
-                         c.get('hdrA'), c.get('hdrB'), names)
+                         c.get('hdrA'), c.get('hdrB'), names, True, c.get('init_py', ''))
     except Exception as e:
         err = EN.canon_error(e)
     # query_table leaves output_column_names empty when there is no header
